@@ -79,6 +79,8 @@ def build(level='quick'):
     # reach what only shows beyond a size or depth threshold)
     add('long_str', [lambda: 'x' * 700])
     add('long_str2', [lambda: 'x' * 699 + 'y'])
+    add('very_long_str', [lambda: 'abcdefghij' * 400])          # 4 000 characters
+    add('very_long_str2', [lambda: 'abcdefghij' * 399 + 'abcdefghiX'])
     add('long_list', [lambda: list(range(300))])
     add('deep_dict', [lambda: {'a': {'b': {'c': {'d': {'e': {'f': {'k': 1, 'j': 2}}}}}}},
                       lambda: {'a': {'b': {'c': {'d': {'e': {'f': {'j': 2, 'k': 1}}}}}}}])
